@@ -5,8 +5,17 @@ from pyvc.solve import Obligation
 from pyvc import symalg as B, scan
 from pyvc.extract import Module, get_func
 
+import contracts.common, contracts.potential, contracts.lammps_table, contracts.dlpoly_table, contracts.gulp, contracts.setfl, contracts.tabeam
+import contracts.pair_tabulation as PT
+import contracts.eam_tabulation as ET
 PKG = 'atsim/potentials'
-FUNCTIONS = []
+# the public write() of every text tabulation target: its contract is FUNCTIONAL -- the document after the call is the document before
+# it followed by a term built from the object's fields only -- and its frame is the document alone (modifies = ['fp']).  Two writes
+# of one object, or writes of two objects built from equal arguments, therefore give the same bytes whatever happened in between,
+# as long as the callables of the model are functions of r (app(f, r) is a function: the purity scan below is what justifies that)
+FUNCTIONS = [(PT.FILE, 'LAMMPS_PairTabulation.write'), (PT.FILE, 'DLPoly_PairTabulation.write'), (PT.FILE, 'GULP_PairTabulation.write'),
+             (ET.FILE, 'SetFL_EAMTabulation.write'), (ET.FILE, 'SetFL_FS_EAMTabulation.write'), (ET.FILE, 'TABEAM_EAMTabulation.write'),
+             (ET.FILE, 'TABEAM_FinnisSinclair_EAMTabulation.write'), (ET.FILE, 'ADP_EAMTabulation.write')]
 
 ANCHORED = ['atsim/potentials/potentialfunctions.py', 'atsim/potentials/potentialforms.py', 'atsim/potentials/__init__.py', 'atsim/potentials/_util.py',
             'atsim/potentials/_potential.py', 'atsim/potentials/_eam_potential.py', 'atsim/potentials/_multi_range_potential_form.py', 'atsim/potentials/spline/__init__.py',
@@ -120,9 +129,26 @@ def _module_level_mutables_written(rp):
         if w: out.append((rp.split('/')[-1], q, w[0]))
     return out
 
-def lemmas():
-    return set_site_obligations() + purity_obligations()
+def frame_obligations():
+    """the contracts listed in FUNCTIONS modify the document only and state it as old document ++ F(fields): read from the registry"""
+    from pyvc.registry import REG
+    out = []
+    for f, q in FUNCTIONS:
+        c = REG.get(f, q)
+        ok = c is not None and len(c.modifies) == 1 and not c.trusted and not c.external
+        out.append(B.static_obligation('C12/%s::%s/frame-is-the-document-only' % (f.split('/')[-1], q), ok, q, f, 'modifies=%r' % (getattr(c, 'modifies', None),)))
+    return out
 
+def lemmas():
+    # functional postcondition => same bytes: for any spec term F of the fields, two documents that both equal old ++ F are equal
+    d0, d1, d2, Fd = z3.Consts('doc0 doc1 doc2 F_of_fields', Doc)
+    det = Obligation('C12/lemma/functional-postcondition-gives-the-same-bytes', [d1 == cat(d0, Fd), d2 == cat(d0, Fd)], d1 == d2, kind='lemma', function='props/C12.py', carries_property=True)
+    return set_site_obligations() + purity_obligations() + frame_obligations() + [det]
+
+MUTANTS = [
+    (PT.FILE, 'LAMMPS_PairTabulation.write', "self.nr - 1", "self.nr", 'post'),
+    (ET.FILE, 'ADP_EAMTabulation.write', "self._write_dipole(sbuild)\n    self._write_quadrupole(sbuild)", "self._write_quadrupole(sbuild)\n    self._write_dipole(sbuild)", 'post'),
+]
 MODULE_MUTANTS = [
     ('atsim/potentials/config/_eam_potential_builder.py', "    for s in sorted(null_embed_species):\n", "    for s in null_embed_species:\n", 'order-independent'),
     ('atsim/potentials/potentialfunctions.py', "  def __call__(self,r, constant):\n", "  def __call__(self,r, constant):\n    self._last = r\n", 'evaluation-methods-store-nothing'),
